@@ -426,9 +426,14 @@ fn run_entry(c: &Case, d: &[u8], rdr: &mut SimReader, cx: &mut work::Ctx) -> Got
                         let r = smref.resolve(base);
                         cx.digest.u64(r.map(|s| s.len() as u64 + 1).unwrap_or(0));
                     }
-                    cx.call("SourceMapRef::resolve_path");
-                    let r = smref.resolve_path(std::path::Path::new("/srv/app/min.js"));
-                    cx.digest.u64(r.is_some() as u64);
+                    for path in ["/srv/app/min.js", "min.js", "", "/", "/é/👌.js"] {
+                        cx.call("SourceMapRef::resolve_path");
+                        let r = smref.resolve_path(std::path::Path::new(path));
+                        cx.digest.u64(r.is_some() as u64);
+                    }
+                    cx.call("Debug/PartialEq for SourceMapRef");
+                    cx.digest.u64(format!("{smref:?}").len() as u64);
+                    cx.digest.u64((smref == smref) as u64);
                     cx.call("SourceMapRef::get_embedded_sourcemap");
                     match smref.get_embedded_sourcemap() {
                         Ok(Some(m)) => Got::Decoded(m),
@@ -463,6 +468,39 @@ pub fn execute(c: &Case) -> Exec {
     let base = alloc::window_start();
     let res = catch_unwind(AssertUnwindSafe(|| {
         let got = run_entry(c, &d, &mut rdr, &mut cx);
+        if !c.entry.is_script() && c.workload_seed % 4 == 0 {
+            // the public VLQ helpers on the segment texts of the delivered document
+            let hot = crate::c05_faults::hot_regions(&d);
+            for (a, b) in hot.mapping_strings.iter().take(2) {
+                if let Ok(text) = std::str::from_utf8(&d[*a..*b]) {
+                    for seg in text.split(|ch| ch == ',' || ch == ';').take(24) {
+                        cx.call("vlq::parse_vlq_segment");
+                        match sourcemap::vlq::parse_vlq_segment(seg) {
+                            Ok(v) => {
+                                cx.digest.u64(v.len() as u64);
+                                // re-encoding is exercised only inside the range the serialiser
+                                // itself uses (differences of u32 values); beyond +-2^62 the public
+                                // encoder does not terminate, which is a matter for the VLQ
+                                // property (C11), not for this one (DESIGN.md §5)
+                                if v.iter().all(|x| x.unsigned_abs() < (1 << 33)) {
+                                    cx.call("vlq::generate_vlq_segment");
+                                    if let Ok(s2) = sourcemap::vlq::generate_vlq_segment(&v) {
+                                        cx.digest.u64(s2.len() as u64);
+                                    }
+                                }
+                            }
+                            Err(e) => cx.note_err(&e),
+                        }
+                    }
+                }
+            }
+            cx.call("vlq::generate_vlq_segment");
+            for nums in [&[0i64, -1, 1][..], &[4294967295, -4294967295], &[1 << 32, -(1 << 32)]] {
+                if let Ok(s2) = sourcemap::vlq::generate_vlq_segment(nums) {
+                    cx.digest.u64(s2.len() as u64);
+                }
+            }
+        }
         match &got {
             Got::Nothing => {}
             Got::Decoded(m) => {
